@@ -1240,7 +1240,19 @@ VP("C06-R2C-mut-insert-raw", "C01", "refactored ListProxy.insert inserts the raw
 VP("C07-R2C-mut-empty-regenerates", "C07", "refactored loader regenerates (overwrites) the key file when it is empty", "C07-R2C", ENC,
    "        if content is None:\n            self.__key = self.__generate_key()", "        if not content:\n            self.__key = self.__generate_key()")
 VP("C07-R2C-mut-any-error-regenerates", "C07", "refactored reader maps every error to 'missing'", "C07-R2C", ENC,
-   "        except OSError:\n            return None", "        except Exception:\n            return None")
+   "        except OSError:\n            if os.path.exists(os.path.expanduser(self.filename)):", "        except Exception:\n            if os.path.exists(os.path.expanduser(self.filename)):")
+VP("C07-R2C-mut-unreadable-regenerates", "C07", "refactored reader: D24 re-opened (any OSError means missing)", "C07-R2C", ENC,
+   "            if os.path.exists(os.path.expanduser(self.filename)):\n                # the key file is there but cannot be read: never replace an existing key\n                raise\n            return None", "            return None")
+V("C07-unreadable-key-regenerated", "C07", "D24 re-opened: every OSError from reading the key file regenerates it", ENC,
+  "            if os.path.exists(filename):\n                # the key file is there but cannot be read: never replace an existing key\n                raise\n", "")
+V("C08-lenient-base64", "C08", "D25 re-opened: stored ciphertext decoded leniently", "cincoconfig/fields/secure_field.py",
+  "ciphertext = base64.b64decode(ciphertext_b64, validate=True)", "ciphertext = base64.b64decode(ciphertext_b64)")
+V("C15-item-position-by-equality", "C15", "D29 re-opened: item position by list.index", "cincoconfig/fields/list_field.py",
+  "        for index, other in enumerate(self):\n            if other is item:\n                return str(index)\n        return str(len(self))",
+  "        try:\n            return str(self.index(item))\n        except ValueError:\n            return str(len(self))")
+V("C07-missing-key-filenotfound", "C07", "handler narrowed to FileNotFoundError", ENC,
+  "        except OSError:\n            if os.path.exists(filename):\n                # the key file is there but cannot be read: never replace an existing key\n                raise\n",
+  "        except FileNotFoundError:\n", expect="silent")
 VP("C07-R2C-mut-strip", "C07", "refactored loader strips the key file content", "C07-R2C", ENC,
    "        self.__key = content\n", "        self.__key = content.strip()\n")
 VP("C07-R2C-mut-exit-inverted", "C07", "`if not refcount` inverted", "C07-R2C", ENC,
